@@ -149,6 +149,36 @@ def check_unknown(case, ctx):
             pass
 
 
+def check_available(case, ctx):
+    from nanite import preproc
+    D = decls()
+    av = list(preproc.available())
+    ctx.check(valid(av, D) and sorted(av) == sorted(D), "available-invalid", {}, f"available() = {av}")
+
+
+#: the order rules as documented for the 6 shipped steps (property statement: 1957 ordered
+#: selections, 1424 of them requirement-closed)
+PINNED = {
+    "compute_tip_position": ([], []),
+    "correct_force_offset": ([], ["correct_force_slope"]),
+    "correct_force_slope": (["correct_tip_offset"], []),
+    "correct_tip_offset": (["compute_tip_position"], []),
+    "correct_split_approach_retract": (["compute_tip_position"], ["correct_force_slope"]),
+    "smooth_height": ([], ["correct_split_approach_retract", "compute_tip_position", "correct_force_slope"]),
+}
+
+
+def check_declarations(case, ctx):
+    D = decls()
+    got = {k: (sorted(v[0]), sorted(v[1])) for k, v in D.items()}
+    want = {k: (sorted(v[0]), sorted(v[1])) for k, v in PINNED.items()}
+    ctx.check(got == want, "declared-order-rules-changed", {},
+              f"step declarations differ from the documented rules: "
+              f"{ {k: got.get(k) for k in set(got) | set(want) if got.get(k) != want.get(k)} }")
+    nclosed = sum(1 for s in all_selections() if closed(s, D))
+    ctx.check(nclosed == 1424, "closed-selection-count", {}, f"{nclosed} requirement-closed selections, expected 1424")
+
+
 def all_selections():
     ids = sorted(decls())
     for r in range(0, len(ids) + 1):
@@ -160,8 +190,8 @@ def run(ctx):
     from nanite import preproc
     D = decls()
     if ctx.shard == 0:
-        av = list(preproc.available())
-        ctx.check(valid(av, D) and sorted(av) == sorted(D), "available-invalid", {}, f"available() = {av}")
+        ctx.direct(check_available, "available")
+        ctx.direct(check_declarations, "declarations")
         ctx.extra["n_steps"] = len(D)
     ctx.enumerate(all_selections(), check_selection, label="selection", stop_after=5)
     known = sorted(D)
@@ -173,7 +203,11 @@ def run(ctx):
 
 
 def replay(case, ctx):
-    if isinstance(case, dict):
+    if case == "available":
+        check_available(case, ctx)
+    elif case == "declarations":
+        check_declarations(case, ctx)
+    elif isinstance(case, dict):
         check_unknown(case, ctx)
     else:
         check_selection(case, ctx)
